@@ -246,3 +246,23 @@ fn rom_window() {
     rom_case(ZXMachine::Sinclair128K, 0x37);
     kani::cover!(true);
 }
+
+/// C14 (second engine for the Verus contract of `ZXAyChip::set_regs`, which a rewrite with iterator
+/// adapters takes out of the Verus subset): restoring the AY register file from a snapshot makes every
+/// register read back as given and leaves the register *selection* alone - the SZX AY block selects
+/// `chCurrentRegister` before it restores the registers. Every register file, every prior selection.
+#[kani::proof]
+#[kani::unwind(17)]
+#[kani::stub(libm::sqrt, sqrt_stub)]
+fn ay_set_regs_selection() {
+    let mut c = ZXController::<VHost>::new(&settings(ZXMachine::Sinclair128K, false, false, false), VContext);
+    let before: [u8; 16] = kani::any();
+    let cur: usize = kani::any();
+    kani::assume(cur < 16);
+    c.mixer.ay.verif_set(before, cur);
+    let regs: [u8; 16] = kani::any();
+    c.mixer.ay.set_regs(&regs);
+    kani::assert(c.mixer.ay.verif_current_reg() == cur, "C14: restoring the AY registers keeps the selected register");
+    kani::assert(c.mixer.ay.verif_regs() == regs, "C14: every AY register reads back as restored");
+    kani::cover!(true);
+}
